@@ -394,6 +394,6 @@ pub fn check(c: &Case, obs: &mut Obs) -> Result<(), String> {
 
 fn run(ctx: &mut Ctx) {
     let cases = ctx.share(ctx.tier.pick(400_000, 4_000_000));
-    let p = ctx.tier.pick(TreeParams::quick(), TreeParams::thorough());
+    let p = ctx.tier.pick(TreeParams::quick(), TreeParams::thorough()).with_big(2);
     run_strategy(ctx, "C05", "accessors", cases, arb_case(p), check);
 }
